@@ -314,8 +314,14 @@ def rule_pairs(ctx):
     factd = "no hstack of the jagged distances"
     for c in calls_in(f.node, ("hstack", "concatenate")):
         a = c.args[0] if c.args else None
+        it = None
         if isinstance(a, ast.ListComp) and len(a.generators) == 1 and not a.generators[0].ifs and norm(a.elt) == norm(a.generators[0].target):
             it = a.generators[0].iter
+        elif isinstance(a, ast.Call) and dotted(a.func) in ("list", "tuple") and len(a.args) == 1:
+            it = a.args[0]
+        elif isinstance(a, ast.Name):
+            it = a
+        if it is not None:
             factd = norm(c)
             # both jagged arrays come from the same query_radius call, unpacked in (indices, distances) order
             for st in flow.stmts:
@@ -324,8 +330,6 @@ def rule_pairs(ctx):
                     if jag is not None and names == [jag, norm(it)]:
                         src = flow.resolve(st.value, at=st)
                         okd = bool(calls_in(src, "query_radius")) or "query_radius" in norm(src)
-        elif isinstance(a, ast.Name):
-            factd = norm(c)
     ctx.ob("GeoIndex.query.distances", okd, factd, "np.hstack over the jagged distances of the same query_radius result, in query order, "
            "unpacked as (indices, distances)", node=f.node, func=f)
 
